@@ -59,13 +59,15 @@ func StringEscape(a String, ascii bool) string {
 			default:
 				fmt.Fprintf(&out, `\x%02x`, c)
 			}
-		case !ascii && c < 0x7F:
-			if c == '\\' || (quote == '\'' && c == '\'') || (quote == '"' && c == '"') {
+		case c < 0x7F:
+			// in ascii mode the input is a repr already: quotes and
+			// backslashes have been escaped
+			if !ascii && (c == '\\' || (quote == '\'' && c == '\'') || (quote == '"' && c == '"')) {
 				out.WriteRune('\\')
 			}
 			out.WriteRune(c)
 		case c < 0x100:
-			if ascii || strconv.IsPrint(c) {
+			if !ascii && strconv.IsPrint(c) {
 				out.WriteRune(c)
 			} else {
 				fmt.Fprintf(&out, "\\x%02x", c)
